@@ -157,8 +157,20 @@ def run(ctx):
                 X = (U * s) @ Vh
             method = ctx.rng.choice(['economy', 'rank', 'cutoff'])
             param = None if method == 'economy' else (ctx.rng.randint(1, 4) if method == 'rank' else ctx.rng.choice([0.5, 1.5, 2.5]))
+            t = pykoop.Tsvd(truncation=method, truncation_param=param)
+            reused = ctx.rng.random() < 0.3
+            if reused:
+                # the same estimator and the same array OBJECT were used before with other contents
+                buf = rs.randn(m, n)
+                try:
+                    t.fit(buf)
+                except ValueError:
+                    pass
+                buf[:] = X
+                X = buf
+                ctx.count('dense:re-used estimator and buffer')
             try:
-                t = pykoop.Tsvd(truncation=method, truncation_param=param).fit(X)
+                t.fit(X)
             except ValueError:
                 ctx.count('dense:raised')
                 continue
